@@ -332,7 +332,8 @@ static mem_ptr vm_execute_func_ffi_record_new(vm * machine, unsigned int count,
                 *offset = vm_execute_func_ffi_align(*offset, type->elements[i]->alignment);
 
                 char * str_value = *(char **)((char *)data + *offset);
-                mem_ptr str_addr = gc_alloc_string(machine->collector, str_value);
+                /* a NULL char * is the nil string */
+                mem_ptr str_addr = (str_value != NULL) ? gc_alloc_string(machine->collector, str_value) : nil_ptr;
                 mem_ptr str_ref_addr = gc_alloc_string_ref(machine->collector, str_addr);
 
                 *offset += type->elements[i]->size;
@@ -647,7 +648,8 @@ void vm_execute_func_ffi(vm * machine, bytecode * code)
         break;
         case BYTECODE_FUNC_FFI_STRING:
         {
-            mem_ptr str = gc_alloc_string(machine->collector, fd->ret_string_value);
+            /* a NULL char * is the nil string */
+            mem_ptr str = (fd->ret_string_value != NULL) ? gc_alloc_string(machine->collector, fd->ret_string_value) : nil_ptr;
             addr = gc_alloc_string_ref(machine->collector, str);
         }
         break;
